@@ -490,10 +490,10 @@ def drivers(tier):
         return {'defer': (DeferDriver(max_queue=4, max_faults=1),
                           dict(max_states=200000, time_budget=300))}
     d1 = DeferDriver(max_queue=5, max_faults=1)
-    d1.name = 'defer-queue4'
+    d1.name = 'defer-queue5'
     d2 = DeferDriver(max_queue=4, max_faults=2)
     d2.name = 'defer-two-faults'
-    return {'defer-queue4': (d1, dict(max_states=2000000, time_budget=1500)),
+    return {'defer-queue5': (d1, dict(max_states=2000000, time_budget=1500)),
             'defer-two-faults': (d2, dict(max_states=2000000,
                                           time_budget=1500))}
 
